@@ -389,6 +389,8 @@ impl RtpPacket {
 }
 
 pub fn calculate_abs_send_time(time: SystemTime) -> u32 {
+    #[cfg(rustrtc_verif)]
+    let time = crate::verif_hooks::system_time_or(time);
     let duration = time
         .duration_since(std::time::UNIX_EPOCH)
         .unwrap_or_default();
